@@ -677,7 +677,10 @@ class YourReferenceUnslicer(slicer.LeafUnslicer):
     def receiveClose(self):
         if self.clid is None:
             raise BananaError("sequence ended too early")
-        obj = self.broker.getMyReferenceByCLID(self.clid)
+        try:
+            obj = self.broker.getMyReferenceByCLID(self.clid)
+        except KeyError:
+            obj = None
         if not obj:
             raise Violation("unknown clid '%s'" % self.clid)
         return obj, None
